@@ -28,9 +28,8 @@ ASSUMPTIONS = ["caller-supplied roots are distinct (documented: roots are a set)
 IT = "graph::ModuleEntryIterator"
 
 
-def run(F, R, tier):
-    bodies = [b for b in F.bodies if (b.get("self_adt") == IT) and not b.get("derived")]
-    R.floor("C15 ModuleEntryIterator bodies", len(bodies), 5)
+def walker_enqueue(F, R, bodies, tag="C15-a", pid="C15"):
+    """enqueue-once / seen-implies-queued discipline of ModuleEntryIterator"""
     # ---------------- C15-a ------------------------------------------------
     pushes = []
     for b in bodies:
@@ -43,7 +42,7 @@ def run(F, R, tier):
         g = guards_at(F, p)
         dom = any(x.kind == "cond" and x.pol and x.node.get("k") == "MethodCall" and x.node["name"] == "insert" and expr_text(x.node["recv"]).endswith("seen") and peel_value(x.node["args"][0]).get("lid") == key.get("lid") for x in g)
         if dom:
-            R.ob("C15-a", "push of `%s` in %s is dominated by a successful seen.insert" % (expr_text(p["args"][0]), p["_top"]["path"].split("::")[-1]), True)
+            R.ob(tag, "push of `%s` in %s is dominated by a successful seen.insert" % (expr_text(p["args"][0]), p["_top"]["path"].split("::")[-1]), True)
             continue
         # roots seeding: an (unconditional) insert of the same local precedes the push in the same block
         blk = p
@@ -51,9 +50,9 @@ def run(F, R, tier):
             blk = blk["_p"]
         ins = [n for n in walk(blk) if n.get("k") == "MethodCall" and n["name"] == "insert" and expr_text(n["recv"]).endswith("seen") and peel_value(n["args"][0]).get("lid") == key.get("lid") and may_reach(F, n, p)]
         is_root_loop = any(a.get("k") == "For" and expr_text(a["iter"]) == "roots" for a in k_ancestors(p))
-        R.ob("C15-a", "root seeding: insert precedes push (roots are a set by contract)", bool(ins) and is_root_loop,
+        R.ob(tag, "root seeding: insert precedes push (roots are a set by contract)", bool(ins) and is_root_loop,
              "`visiting.%s(%s)` is not dominated by a successful `seen.insert(%s)`: a specifier reachable along two edges is yielded twice" % (p["name"], expr_text(p["args"][0]), expr_text(p["args"][0])),
-             where(p), key="C15|C15-a|%s|%s" % (p["_top"]["path"], expr_text(p["args"][0])))
+             where(p), key=pid + "|" + tag + "|%s|%s" % (p["_top"]["path"], expr_text(p["args"][0])))
 
     # converse: a successful seen.insert is always followed by the push (a
     # specifier must not be marked seen without being queued)
@@ -78,9 +77,9 @@ def run(F, R, tier):
             while blk.get("_p") is not None and blk.get("k") != "Block":
                 blk = blk["_p"]
             ok = any(is_push(n) and may_reach(F, ins, n) for n in walk(blk)) and ins["_p"].get("k") == "Semi"
-            R.ob("C15-a", "unconditional seen.insert(%s) is followed by its push" % expr_text(ins["args"][0]), ok,
+            R.ob(tag, "unconditional seen.insert(%s) is followed by its push" % expr_text(ins["args"][0]), ok,
                  "`seen.insert(%s)` result is not used to gate a push and no push follows: the specifier is marked seen but never visited" % expr_text(ins["args"][0]), where(ins),
-                 key="C15|C15-a|insert-without-push|%s" % ins["_top"]["path"])
+                 key=pid + "|" + tag + "|insert-without-push|%s" % ins["_top"]["path"])
             continue
         # the insert must be the last-evaluated conjunct of the condition
         c = iff["cond"]
@@ -89,10 +88,17 @@ def run(F, R, tier):
             last = peel(last)["r"]
         last_ok = is_within(ins, last) and peel(last) is ins
         bad, _ = must_pass(F, iff["then"], is_push, exit_kinds=("fallthrough", "return", "break", "continue"))
-        R.ob("C15-a", "successful seen.insert(%s) in %s always queues the specifier" % (expr_text(ins["args"][0]), ins["_top"]["path"].split("::")[-1]), last_ok and not bad,
+        R.ob(tag, "successful seen.insert(%s) in %s always queues the specifier" % (expr_text(ins["args"][0]), ins["_top"]["path"].split("::")[-1]), last_ok and not bad,
              "a specifier can be marked seen (`seen.insert` succeeded) without being pushed onto the work list (%s): when it is reached again over a followed edge it is skipped together with everything below it" % (
                  "further conditions are tested after the insert" if not last_ok else "a path through the then-branch has no push"),
-             where(ins), key="C15|C15-a|insert-without-push|%s" % ins["_top"]["path"])
+             where(ins), key=pid + "|" + tag + "|insert-without-push|%s" % ins["_top"]["path"])
+
+
+
+def run(F, R, tier):
+    bodies = [b for b in F.bodies if (b.get("self_adt") == IT) and not b.get("derived")]
+    R.floor("C15 ModuleEntryIterator bodies", len(bodies), 5)
+    walker_enqueue(F, R, bodies)
 
     # ---------------- C15-b ------------------------------------------------
     n_type_push = 0
